@@ -267,7 +267,9 @@ func (b *bitstream) Next() error {
 		rem -= lenghtOfRemaining
 	}
 
-	if length > rem {
+	if length > rem || length > math.MaxUint64-b.pos {
+		// The second test matters at top level only, where rem is unbounded: a
+		// length that would carry the end position past 2^64.
 		msg := fmt.Sprintf("value overruns its container: %v vs %v", length, rem)
 		return &SyntaxError{msg, pos - 1}
 	}
